@@ -142,7 +142,36 @@ func (c *Cluster) Open(id string) error {
 	}
 	n.R = r
 	c.all = append(c.all, incarnation{r, n.Store})
+	registryMu.Lock()
+	registry = append(registry, regEntry{fmt.Sprintf("(%p", r), n.Store})
+	registryMu.Unlock()
 	return nil
+}
+
+// every *Raft ever created in this process, with its stores: a goroutine waiting for the mutex of a
+// node that is frozen at a storage write (which holds that mutex for good) is blocked for good too
+type regEntry struct {
+	ptr string // "(0xc000123400": how the receiver appears in a stack trace
+	s   *Stores
+}
+
+var (
+	registryMu sync.Mutex
+	registry   []regEntry
+)
+
+func waitsForFrozenNode(g string) bool {
+	registryMu.Lock()
+	defer registryMu.Unlock()
+	for _, e := range registry {
+		e.s.mu.Lock()
+		frozen := e.s.Frozen
+		e.s.mu.Unlock()
+		if frozen && strings.Contains(g, "raft.(*Raft).") && strings.Contains(g, e.ptr) {
+			return true
+		}
+	}
+	return false
 }
 
 func (c *Cluster) Bootstrap(id string, members []string) error {
@@ -625,6 +654,11 @@ func Settled() (bool, string) {
 		switch state {
 		case "sync.Cond.Wait", "sleep":
 			continue
+		case "sync.Mutex.Lock":
+			if waitsForFrozenNode(g) {
+				continue
+			}
+			return false, hdr
 		case "chan receive", "select", "select (no cases)":
 			if strings.Contains(g, parkMarker) {
 				continue
